@@ -15,7 +15,8 @@ from ..interp import Event, Path
 from ..loader import AnalysisError, ClassInfo, FuncInfo, Program
 from ..model import Model
 from ..report import Run
-from ..values import Const, Ext, Inst, Sym, Term, V, is_nil
+from ..engine import Interp
+from ..values import Const, Ext, Inst, ListV, SchemaV, StrV, Sym, Term, TupleV, V, is_nil
 from ..visits import configs_for, run_visit, validator_ctx
 from ..interp_call import KIND_NAMES
 
@@ -117,7 +118,7 @@ def check(run: Run, prog: Program, model: Model, tier: str) -> None:
     run.floor("PATH-OWNERSHIP", 4)
     run.floor("FACT-AGREE", 14)
 
-    _check_formatter(run, prog, errs)
+    _check_formatter(run, prog, model, errs)
 
 
 def _check_path(prog: Program, errs: Dict[str, ClassInfo], vis: str, hook: str, label: str, p: Path, record: Any) -> None:
@@ -291,97 +292,131 @@ def _fact_agree(prog: Program, p: Path, e: Event, cls: str, args: List[V], const
                    f"argument {ak[:60]} could not be related to a guard on this path")
 
 
-def _check_formatter(run: Run, prog: Program, errs: Dict[str, ClassInfo]) -> None:
+def _mentions(v: Any, key: str, seen: Optional[Set[int]] = None) -> bool:
+    """Does the abstract value contain (anywhere inside) a value with this key?"""
+    if seen is None:
+        seen = set()
+    if not isinstance(v, V) or id(v) in seen:
+        return False
+    seen.add(id(v))
+    if v.key() == key:
+        return True
+    if isinstance(v, (SchemaV, Inst)):
+        return key in v.key() or any(_mentions(a, key, seen) for a in getattr(v, "attrs", {}).values())
+    if isinstance(v, Term):
+        return any(_mentions(a, key, seen) for a in v.args)
+    if isinstance(v, StrV):
+        return any(_mentions(piece[0], key, seen) for piece in v.pieces if not isinstance(piece, str))
+    if isinstance(v, (ListV, TupleV)):
+        return any(_mentions(getattr(a, "value", a), key, seen) for a in v.items)
+    if isinstance(v, Sym) and v.origin:
+        return any(_mentions(a, key, seen) for a in v.origin if isinstance(a, V))
+    return False
+
+
+def _check_formatter(run: Run, prog: Program, model: Model, errs: Dict[str, ClassInfo]) -> None:
+    """Formatter rules, decided by abstract evaluation of each error class's format() on an instance built by its own
+    __init__ from symbolic arguments (so helpers, templates and str.format / f-string spellings are all the same):
+      FORMAT-DISPATCH  the Formatter method reached from E.format is the one annotated with E;
+      FORMAT-ATTRS     every attribute read off the error was set by E.__init__;
+      FORMAT-PATH      some returned message contains text derived from error.path;
+      PATH-OWNERSHIP   error.path is never indexed in place (PathHolder.__getitem__ appends to the holder)."""
     fm = prog.cls("validation._formatter.Formatter")
-    n = 0
     by_param: Dict[str, FuncInfo] = {}
     for mname, m in fm.methods.items():
         if not mname.startswith("format_"):
             continue
-        n += 1
         args = m.node.args.args
         ann = ast.unparse(args[1].annotation) if len(args) > 1 and args[1].annotation is not None else ""
         by_param[ann] = m
-        construct = f"Formatter.{mname}"
-        # path rendered through _at_path/_format_path (possibly via a private helper taking error.path)
-        uses = False
-        mutates = False
-        par = parents(m.node)
-        for x in ast.walk(m.node):
-            if isinstance(x, ast.Call) and isinstance(x.func, ast.Attribute) and x.func.attr in ("_at_path", "_format_path"):
-                uses = True
-            if isinstance(x, ast.Call) and isinstance(x.func, ast.Attribute) and x.func.attr.startswith("_format_") \
-                    and any(isinstance(a, ast.Attribute) and a.attr == "path" for a in x.args):
-                helper = fm.methods.get(x.func.attr)
-                if helper is not None and any(isinstance(y, ast.Call) and isinstance(y.func, ast.Attribute)
-                                              and y.func.attr in ("_at_path", "_format_path") for y in ast.walk(helper.node)):
-                    uses = True
-            if isinstance(x, ast.Subscript) and isinstance(x.value, ast.Attribute) and x.value.attr == "path" \
-                    and isinstance(x.value.value, ast.Name) and x.value.value.id == "error":
-                mutates = True
-        if mutates:
-            run.violated("PATH-OWNERSHIP", f"{construct}: index error.path", f"{m.module.path}:{m.node.lineno}",
-                         "formatter indexes error.path directly, which appends to the error's own path",
-                         "formatting an error twice yields two different messages")
-        else:
-            # explicit ownership obligation for the two indexing formatters
-            for x in ast.walk(m.node):
-                if isinstance(x, ast.Subscript) and isinstance(x.value, ast.Name):
-                    src = None
-                    for y in ast.walk(m.node):
-                        if isinstance(y, ast.Assign) and any(isinstance(t, ast.Name) and t.id == x.value.id for t in y.targets):
-                            src = y.value
-                    if src is not None and isinstance(src, ast.Call) and isinstance(src.func, ast.Name) and src.func.id == "deepcopy":
-                        run.holds("PATH-OWNERSHIP", f"{construct}: index {x.value.id}", f"{m.module.path}:{x.lineno}",
-                                  "indexed object is deepcopy(error.path)", nontrivial=True)
-                    elif src is not None and isinstance(src, ast.Call) and isinstance(src.func, ast.Name) and src.func.id == "copy":
-                        run.violated("PATH-OWNERSHIP", f"{construct}: index {x.value.id}", f"{m.module.path}:{x.lineno}",
-                                     "shallow copy(error.path) shares the accessor list: indexing it mutates the error's own path",
-                                     "formatting an error twice yields two different messages")
-                    elif src is not None and isinstance(src, ast.Attribute) and src.attr == "path":
-                        run.violated("PATH-OWNERSHIP", f"{construct}: index {x.value.id}", f"{m.module.path}:{x.lineno}",
-                                     "alias of error.path indexed in place", "formatting an error twice yields two different messages")
-        if uses:
-            run.holds("FORMAT-PATH", construct, m.loc, "message renders error.path through _at_path/_format_path", nontrivial=False)
-        else:
-            run.violated("FORMAT-PATH", construct, m.loc, "rendered message never mentions error.path",
-                         "nested errors are reported without their location")
-        # attributes read exist on the error class
-        cls = errs.get(ann)
-        if cls is not None:
-            init = cls.lookup("__init__")
-            have = set()
-            if init is not None:
-                for x in ast.walk(init.node):
-                    if isinstance(x, ast.Attribute) and isinstance(x.value, ast.Name) and x.value.id == "self" and isinstance(x.ctx, ast.Store):
-                        have.add(x.attr)
-            read = {x.attr for x in ast.walk(m.node) if isinstance(x, ast.Attribute) and isinstance(x.value, ast.Name) and x.value.id == "error"}
-            missing = read - have
-            if missing:
-                run.violated("FORMAT-ATTRS", construct, m.loc, f"reads error.{sorted(missing)} which {ann}.__init__ never sets",
-                             "formatting this error raises AttributeError")
-            else:
-                run.holds("FORMAT-ATTRS", construct, m.loc, f"reads {sorted(read)} all set by {ann}.__init__", nontrivial=False)
-    run.floor("FORMAT-PATH", 12)
-    # each error class's format() calls the formatter method annotated with that class
-    for name, ci in errs.items():
-        fmt = ci.methods.get("format")
-        if fmt is None:
+    for name, ci in sorted(errs.items()):
+        fmt = ci.lookup("format")
+        init = ci.lookup("__init__")
+        if fmt is None or init is None:
             continue
-        called = [x.func.attr for x in ast.walk(fmt.node) if isinstance(x, ast.Call) and isinstance(x.func, ast.Attribute)
-                  and isinstance(x.func.value, ast.Name) and x.func.value.id == "formatter"]
+        fields = [a.arg for a in init.node.args.args[1:]]
         want = by_param.get(name)
+        it = Interp(prog, model, unroll=1)
+
+        def run1(i: Interp) -> V:
+            formatter = i._construct(fm, [], {}, None)
+            actual: List[V] = []
+            for fld in fields:
+                if fld == "path":
+                    actual.append(Sym("error.path", "PathHolder", ("attr", "path")))
+                elif fld in ("length", "min_length", "max_length", "index", "actual_version", "expected_version"):
+                    actual.append(Sym(f"error.{fld}", "int", ("attr", fld)))
+                else:
+                    actual.append(Sym(f"error.{fld}", None, ("attr", fld)))
+            err = i._construct(ci, actual, {}, None)
+            return i.call_function(fmt, [formatter], {}, self_val=err)
+        ps = it.run_paths(run1)
         construct = f"{name}.format"
-        if not called:
-            run.undecided("FORMAT-DISPATCH", construct, fmt.loc, "no formatter call recognised")
+        # ---- FORMAT-DISPATCH
+        reached = {e.data["callee"].rsplit(".", 1)[-1] for p in ps for e in p.events
+                   if e.kind == "call" and isinstance(e.data.get("callee"), str) and ".Formatter.format_" in e.data["callee"]
+                   and e.func == fmt.qualname}
+        if not reached:
+            run.undecided("FORMAT-DISPATCH", construct, fmt.loc, "no Formatter.format_* call is reached from format()")
         elif want is None:
             run.violated("FORMAT-DISPATCH", construct, fmt.loc, f"no Formatter method takes a {name}", "error cannot be rendered")
-        elif called[0] == want.name:
-            run.holds("FORMAT-DISPATCH", construct, fmt.loc, f"calls {want.name}", nontrivial=False)
+        elif reached == {want.name}:
+            run.holds("FORMAT-DISPATCH", construct, fmt.loc, f"calls {want.name}", nontrivial=True)
         else:
             run.violated("FORMAT-DISPATCH", construct, fmt.loc,
-                         f"calls formatter.{called[0]} but the method for {name} is {want.name}",
+                         f"calls formatter.{sorted(reached)[0]} but the method for {name} is {want.name}",
                          "the rendered message states a different fact than the error")
+        if want is None:
+            continue
+        fconstruct = f"Formatter.{want.name}"
+        # ---- FORMAT-ATTRS
+        missing = set()
+        for p in ps:
+            for e in p.events:
+                if e.kind == "partial" and e.data.get("op") == "getattr" and e.data.get("operands"):
+                    recv, attr = e.data["operands"][0], e.data["operands"][1]
+                    if isinstance(recv, Inst) and recv.cls is not None and recv.cls.qualname == ci.qualname and isinstance(attr, Const):
+                        missing.add(str(attr.value))
+        if missing:
+            run.violated("FORMAT-ATTRS", fconstruct, want.loc, f"reads error.{sorted(missing)} which {name}.__init__ never sets",
+                         "formatting this error raises AttributeError")
+        else:
+            run.holds("FORMAT-ATTRS", fconstruct, want.loc, f"every attribute read off the error is set by {name}.__init__", nontrivial=False)
+        # ---- FORMAT-PATH
+        rets = [p for p in ps if p.outcome == "return"]
+        if not rets:
+            run.undecided("FORMAT-PATH", fconstruct, want.loc, "no returning path")
+        elif any(_mentions(p.value, "error.path") for p in rets):
+            run.holds("FORMAT-PATH", fconstruct, want.loc, "a returned message contains text derived from error.path", nontrivial=True)
+        elif any(isinstance(p.value, Term) and p.value.op in ("format", "mcall", "percent") for p in rets):
+            run.undecided("FORMAT-PATH", fconstruct, want.loc, "the message is built in a form that is not evaluated")
+        else:
+            run.violated("FORMAT-PATH", fconstruct, want.loc, "rendered message never mentions error.path",
+                         "nested errors are reported without their location")
+        # ---- PATH-OWNERSHIP: indexing of a PathHolder inside the formatter
+        seen_sites: Set[str] = set()
+        for p in ps:
+            for e in p.events:
+                if e.kind != "path_index":
+                    continue
+                recv = e.data["recv"]
+                loc = e.loc(prog)
+                if loc in seen_sites:
+                    continue
+                seen_sites.add(loc)
+                c = f"{fconstruct}: index path"
+                if isinstance(recv, Term) and recv.op == "deepcopy" and _mentions(recv, "error.path"):
+                    run.holds("PATH-OWNERSHIP", c, loc, "indexed object is deepcopy(error.path)", nontrivial=True)
+                elif isinstance(recv, Term) and recv.op == "copy" and _mentions(recv, "error.path"):
+                    run.violated("PATH-OWNERSHIP", c, loc,
+                                 "shallow copy(error.path) shares the accessor list: indexing it mutates the error's own path",
+                                 "formatting an error twice yields two different messages")
+                elif recv.key() == "error.path":
+                    run.violated("PATH-OWNERSHIP", c, loc, "error.path is indexed in place, which appends to the error's own path",
+                                 "formatting an error twice yields two different messages")
+                elif _mentions(recv, "error.path"):
+                    run.undecided("PATH-OWNERSHIP", c, loc, f"indexed object {recv.key()[:50]} derives from error.path in an unrecognised way")
+    run.floor("FORMAT-PATH", 12)
     run.floor("FORMAT-DISPATCH", 12)
 
 
